@@ -3,7 +3,7 @@
    Tables.v on this run, with grace period g (the source's value is grace_ns). *)
 From Coq Require Import List NArith ZArith Bool.
 From FwdLib Require Import Bytes.
-From G03 Require Import Tables Tunnel TunnelProofs Abstract Check Obligations.
+From G03 Require Import Tables Tunnel TunnelProofs Abstract ReplyReader Check OracleProofs Obligations.
 Import ListNotations.
 Open Scope N_scope.
 
@@ -108,6 +108,19 @@ Theorem T03_abstract_counts : forall g e k tr s d, (0 <= g)%Z ->
   /\ (as_forced s = true -> exists t0, as_first s = Some t0 /\ (t0 + g <= as_clock s)%Z).
 Proof. exact (fun g e k tr s d Hg => arun_counts _ e k tr s d (shape_ok_tables g Hg)). Qed.
 Print Assumptions T03_abstract_counts.
+
+(* The oracle evaluated at run time on what the endpoints observed is the theorems' own predicate. *)
+Theorem T03_oracle_sound : forall o, obs_prop o = true -> obs_property o.
+Proof. exact obs_prop_sound. Qed.
+Print Assumptions T03_oracle_sound.
+
+(* A case passing the correspondence check has a recorded trace that is a run of the LTS
+   from the observed switch-over state. *)
+Theorem T03_correspondence_is_trace_inclusion : forall c, cmodel_ok c = true ->
+  exists tr s, cc_trace c = Some tr /\
+               steps (tables_shape (cc_grace c)) (init (cc_early c) (cc_skip c) (cc_kept c)) tr s.
+Proof. exact cmodel_ok_run. Qed.
+Print Assumptions T03_correspondence_is_trace_inclusion.
 
 (* Non-vacuity: a concrete run with early data, a banner, a half-close and both closes. *)
 Example T03_example : example_run_ok = true.
